@@ -7,6 +7,9 @@
 //! judges the library: verdicts come from TLC validating the trace against Trace.tla.
 
 mod drivers;
+mod drivers_enc;
+mod drivers_misc;
+mod drivers_rx;
 mod rng;
 mod runner;
 
